@@ -1,7 +1,7 @@
 #!/usr/bin/env python3
 # jobs for units/codec_std.cpp (growable containers over the std models).  BOUNDED: element counts <= 3
 # (strings <= 6 characters) — the capacity of the verification models; labelled bounded, not counted as proof.
-types = [("vecu8", 7), ("vecu32", 16), ("vecpair", 12), ("str", 10), ("map", 12), ("umap", 12)]
+types = [("vecu8", 7), ("vecu32", 16), ("vecpair", 12), ("str", 10), ("wstr", 14), ("map", 12), ("umap", 12)]
 out = ["cxxflags -Ispec/stdmodel"]
 HEAVY = ("map", "umap", "vecpair")
 def job(name, props, unwind, tier="quick"):
